@@ -113,7 +113,7 @@ def build():
         return [F((3, 3), (0, 0), 45)(s), F((2, 2), (3, 3), 46)(s), F((2, 3), (1, 1), 47)(s)]
 
     add('field.boundary', ['C06'], lf.boundary, lambda s: dict(fields=flist(s)),
-        alts=dict(fields=[lambda s: flist(s)[::-1], lambda s: tuple(flist(s)), lambda s: flist(s)[:1], lambda s: (f for f in flist(s)), lambda s: iter(flist(s))]))
+        alts=dict(fields=[lambda s: flist(s)[::-1], lambda s: tuple(flist(s)), lambda s: flist(s)[:1], lambda s: (f for f in flist(s)), lambda s: iter(flist(s))]), consumes=True)
     add('field.reduce', ['C06', 'C03'], lf.reduce, lambda s: dict(fields=flist(s)),
         alts=dict(fields=[lambda s: flist(s)[::-1], lambda s: [flist(s)[1], flist(s)[0], flist(s)[2]], lambda s: flist(s)[:2]]))
     add('extent.queries', ['C06'], lambda a, b: (le.intersect(a, b), le.intersection_shape(a, b) if le.intersect(a, b) else None,
@@ -155,10 +155,12 @@ def build():
         lambda s: dict(w=wf(60)(s), t=lentil.Tilt(x=1e-6, y=-2e-6)),
         alts=dict(w=[wf(61, seg=True, fit=True), lambda s: lentil.Wavefront(WL)], t=[lambda s: lentil.Tilt(x=-3e-6, y=0), lambda s: lentil.Tilt(x=0, y=0)]),
         bad=[('t', lambda s: lentil.Tilt(x=5e-6, y=5e-6, pixelscale=3 * DX)), ('t', lambda s: lentil.Tilt(x=5e-6, y=5e-6, ptype=lentil.image))])
+    full_img = lambda tag: (lambda s: lentil.propagate_dft(wf(tag)(s), DU, shape=(6, 6), oversample=1))          # one Field covering the whole frame
+    full_pup = lambda tag: (lambda s: lentil.Wavefront(WL) * lentil.Pupil(amplitude=rm.generic_real((6, 5), s, tag=tag, lo=0.5, hi=1.0), pixelscale=DX, focal_length=Z))
     add('wavefront.field', ['C07', 'C02', 'C03'], lambda w: w.field, lambda s: dict(w=wf(62)(s)),
-        alts=dict(w=[wf(63), wf(64, seg=True), image_wf(65), image_wf(66, seg=True, fit=True), image_wf(67, seg=True)]))
+        alts=dict(w=[wf(63), wf(64, seg=True), image_wf(65), image_wf(66, seg=True, fit=True), image_wf(67, seg=True), full_img(68), full_pup(69)]))
     add('wavefront.intensity', ['C07', 'C05', 'C03'], lambda w: w.intensity, lambda s: dict(w=wf(62)(s)),
-        alts=dict(w=[wf(63), wf(64, seg=True), image_wf(65), image_wf(66, seg=True, fit=True), image_wf(67, seg=True)]))
+        alts=dict(w=[wf(63), wf(64, seg=True), image_wf(65), image_wf(66, seg=True, fit=True), image_wf(67, seg=True), full_img(68), full_pup(69)]))
     add('wavefront.views-twice', ['C07', 'C05', 'C03'], lambda w: (w.intensity, w.field, w.intensity, w.insert(np.zeros(tuple(w.shape)), weight=2.0), w.field),
         lambda s: dict(w=image_wf(67, seg=True)(s)), alts=dict(w=[image_wf(66, seg=True, fit=True), wf(64, seg=True), image_wf(65)]))
     add('wavefront.insert', ['C07'], lambda w, out, weight: w.insert(out, weight=weight),
@@ -173,9 +175,9 @@ def build():
                   mask=[lambda s: (rm.generic_real((10, 12), s, tag=75) > 0.9) * 1.0, lambda s: np.pad(np.ones((4, 3)), ((2, 4), (6, 3)))]),
         bad=[('pixelscale', K((DU, DU, DU))), ('shape', K((2, 2, 2)))])
     add('propagate_fft', ['C09', 'C05'], lentil.propagate_fft,
-        lambda s: dict(wavefront=wf(76)(s), pixelscale=DU, shape=(4, 4), oversample=1),
+        lambda s: dict(wavefront=wf(76)(s), pixelscale=DU, shape=(4, 4), oversample=2),
         alts=dict(wavefront=[wf(77), wf(78, seg=True)], pixelscale=[K(DU / 2), K((DU, DU / 2)), K(np.array([DU, DU])), K(np.array([DU / 2, DU]))],
-                  shape=[K((6, 5)), K(None)], oversample=[K(2), K(4)]),
+                  shape=[K((6, 5)), K(None)], oversample=[K(1), K(4)]),
         bad=[('shape', K((4096, 4096))), ('wavefront', wf(79, fit=True)), ('scratch', lambda s: np.zeros((2, 2), dtype=complex))])
     add('propagate_fft-scratch', ['C09', 'C03'], lentil.propagate_fft,
         lambda s: dict(wavefront=wf(76)(s), pixelscale=DU, shape=(4, 4), oversample=1, scratch=np.full((40, 40), 5 - 1j)),
@@ -186,6 +188,17 @@ def build():
     add('scratch_shape', ['C09'], lentil.scratch_shape, lambda s: dict(wavelength=WL, dx=DX, du=DU, z=Z, oversample=2),
         alts=dict(wavelength=[K(WL * 1.0004), K(WL * 1.0009), K(WL * 1.3), K(np.array([WL, 1.2 * WL])), K([WL * 1.0004, WL])], dx=[K(2 * DX), K((DX, 2 * DX))],
                   du=[K(DU / 2), K(np.array([DU, DU / 2]))], z=[K(2.0)], oversample=[K(1), K(3)]))
+    add('scratch_shape-large', ['C09'], lentil.scratch_shape, lambda s: dict(wavelength=500.0e-9, dx=5e-3, du=5e-6, z=10.0, oversample=5),
+        alts=dict(wavelength=[K(500.2e-9), K(500.4e-9), K(500.49e-9), K(499.6e-9), K(499.51e-9), K(np.array([500.0e-9, 500.4e-9]))], oversample=[K(4)]))
+    add('propagate_dft-mask', ['C02'], lentil.propagate_dft,
+        lambda s: dict(wavefront=wf(70)(s), pixelscale=DU, shape=(5, 6), oversample=1, mask=np.pad(np.ones((2, 2)), ((1, 2), (3, 1)))),
+        alts=dict(mask=[lambda s: np.pad(np.ones((2, 3)), ((2, 1), (0, 3))), lambda s: (rm.generic_real((5, 6), s, tag=75) > 0.8) * 1.0, lambda s: np.ones((5, 6))],
+                  wavefront=[wf(72, seg=True)]))
+    add('wavefront.set-ptype', ['C08'], lambda w, ptype: (setattr(w, 'ptype', ptype), w)[1], lambda s: dict(w=wf(62)(s), ptype=lentil.pupil),
+        alts=dict(w=[image_wf(65), lambda s: lentil.Wavefront(WL)], ptype=[K(lentil.image), K(lentil.none)]),
+        bad=[('ptype', K(lentil.tilt)), ('ptype', K(lentil.transform)), ('ptype', K('bogus')), ('ptype', K(7))], writes=['w'], norefill=['w'])
+    add('dft2-out-overlap', ['C01'], lambda f, alpha, how: _dft2_overlap(lentil, f, alpha, how), lambda s: dict(f=C((12, 12), 6)(s), alpha=(1 / 12, 1 / 12), how='view'),
+        alts=dict(f=[C((9, 12), 7)], alpha=[K((0.1, 0.05))], how=[K('same'), K('block'), K('fresh')]), invariant=lambda r: r[1], writes=['f'], norefill=['f'])
     add('plane.fit_tilt', ['C04', 'C03'], lambda p: p.fit_tilt(), lambda s: dict(p=pupil(80)(s)),
         alts=dict(p=[pupil(81), pupil(82, seg=True), pupil(83, fit=True), pupil(84, seg=True, fit=True)]))
     add('plane.fit_tilt-inplace-twice', ['C04', 'C03'], lambda p: (p.fit_tilt(inplace=True), p.fit_tilt(inplace=True), p)[2], lambda s: dict(p=pupil(82, seg=True)(s)),
@@ -230,6 +243,8 @@ def build():
     gridA = np.array([400., 450., 500., 550., 600., 650., 700.])
     gridB = np.array([400., 410., 450., 520., 600., 690., 700.])          # same length and end points as gridA
     spec = lambda tag, g=gridA, wu='nm', vu=None: (lambda s: Spectrum(np.array(g, dtype=float) * {'nm': 1.0, 'um': 1e-3}[wu], rm.generic_real((len(g),), s, tag=tag, lo=0.5, hi=2.0), waveunit=wu, valueunit=vu))
+    cube = lambda tag, dt=float: (lambda s: np.floor(rm.generic_real((2, 4, 4), s, tag=tag, lo=1, hi=60)).astype(dt) if dt is not float else rm.generic_real((2, 4, 4), s, tag=tag, lo=0, hi=40))
+    qspec = lambda tag, wu='nm': (lambda s: Spectrum(np.array([400., 450., 550., 650., 700.]) * {'nm': 1.0, 'um': 1e-3}[wu], rm.generic_real((5,), s, tag=tag, lo=0.1, hi=0.9), waveunit=wu))
     add('spectrum.binary', ['C13'], lambda a, b, o: getattr(a, o)(b), lambda s: dict(a=spec(100)(s), b=spec(101, gridA[1:5])(s), o='add'),
         alts=dict(a=[spec(102), spec(103, gridB), spec(104, gridA, 'um'), spec(105, gridA[:4])], b=[spec(106, gridA[1:5]), spec(107, gridA[3:] + 300), spec(108, gridB), spec(109, gridA, 'um')],
                   o=[K('multiply'), K('subtract'), K('divide')]), alias_ok=False)
@@ -273,6 +288,12 @@ def build():
         alts=dict(a=[spec(128)], wave=[K(gridB.copy())]),
         bad=[('wave', K(np.array([0., .5, 1., 1.5, 2., 2.5, 3.]))), ('wave', K(gridA[::-1].copy())), ('wave', K(np.array([400., 400., 500., 550., 600., 650., 700.])))],
         writes=['a'], norefill=['a', 'wave'])
+    add('spectrum.refused-edit-then-binary', ['C13', 'C15'], lambda a, b, how: _refused_then(a, lambda: a + b, how), lambda s: dict(a=spec(126)(s), b=spec(127, gridA[1:5])(s), how='wave-nonpositive'),
+        alts=dict(a=[spec(128, gridB)], how=[K('wave-decreasing'), K('wave-duplicate'), K('resample-decreasing'), K('pad-negative'), K('none')]), writes=['a'], norefill=['a'],
+        invariant=lambda r: r[2])
+    add('spectrum.refused-to-then-collect', ['C16', 'C14'], lambda img, wave, qe, how: _refused_then(qe, lambda: det.collect_charge(img, wave, qe), how),
+        lambda s: dict(img=cube(140)(s), wave=np.array([450., 650.]), qe=qspec(144)(s), how='to-second-unit'),
+        alts=dict(qe=[qspec(145, 'um')], how=[K('to-bogus'), K('to-two-wave-units'), K('none')]), writes=['qe'], norefill=['qe'], invariant=lambda r: r[2])
     add('spectrum.to', ['C14', 'C16'], lambda a, units: (a.to(*units), a)[1], lambda s: dict(a=spec(130, gridA, 'nm', 'flam')(s), units=('um',)),
         alts=dict(a=[spec(131, gridA, 'nm', 'photlam'), spec(132, gridA, 'um', 'wlam'), spec(133, gridA, 'nm', None)], units=[K(('m', 'photlam')), K(('wlam',)), K(('angstrom',)), K(('nm',))]),
         bad=[('units', K(('um', 'jansky'))), ('units', K(('photlam', 'nope'))), ('units', K(('bogus',))), ('units', K(('um', 'nm')))], writes=['a'], norefill=['a'])
@@ -291,8 +312,6 @@ def build():
         alts=dict(wave=[K(np.array([300., 600., 1200.]))], temp=[K(6000.)], waveunit=[K('um')], valueunit=[K('wlam'), K('flam')], to=[K(('wlam',)), K(('um',)), K(('um', 'flam'))], swu=[K('um')]))
 
     # ------------------------------------------------------------------------------------------------ detector (C16, C18, C19)
-    cube = lambda tag, dt=float: (lambda s: np.floor(rm.generic_real((2, 4, 4), s, tag=tag, lo=1, hi=60)).astype(dt) if dt is not float else rm.generic_real((2, 4, 4), s, tag=tag, lo=0, hi=40))
-    qspec = lambda tag, wu='nm': (lambda s: Spectrum(np.array([400., 450., 550., 650., 700.]) * {'nm': 1.0, 'um': 1e-3}[wu], rm.generic_real((5,), s, tag=tag, lo=0.1, hi=0.9), waveunit=wu))
     add('collect_charge', ['C16'], det.collect_charge, lambda s: dict(img=cube(140)(s), wave=np.array([450., 650.]), qe=np.array([0.5, 0.25])),
         alts=dict(img=[cube(141), cube(142, np.int64), cube(143, np.uint16)], wave=[K([450., 650.]), K(np.array([450., 550.]))], qe=[K(0.5), K(np.array([0.2, 0.9])), qspec(144), qspec(145, 'um'), K([0.5, 0.25])],
                   waveunit=[K('um')]))
@@ -389,3 +408,57 @@ def _bb(rad, wave, temp, waveunit, valueunit, to, swu):
     lam_nm = np.array([450., 800., 2000.])
     w = lam_nm * {'nm': 1.0, 'um': 1e-3}[swu]
     return bb, np.asarray(bb.sample(w, waveunit=swu))
+
+
+def _dft2_overlap(lentil, f, alpha, how):
+    """dft2 writing into a buffer that overlaps its input through another object gives what a fresh allocation gives"""
+    ref = np.array(lentil.fourier.dft2(f.copy(), alpha, shape=f.shape), copy=True)
+    if how == 'fresh':
+        out = np.zeros(f.shape, dtype=complex)
+        src = f
+    elif how == 'same':
+        src = f
+        out = f
+    elif how == 'view':
+        src = f
+        out = f.view()
+    else:                      # the input is a block of a larger work buffer and the output is that same block through another slice object
+        work = np.zeros((f.shape[0] + 4, f.shape[1] + 4), dtype=complex)
+        work[2:-2, 2:-2] = f
+        src = work[2:-2, 2:-2]
+        out = work[2:f.shape[0] + 2, 2:f.shape[1] + 2]
+    try:
+        r = lentil.fourier.dft2(src, alpha, shape=f.shape, out=out)
+    except ValueError as e:
+        return ('refused', None)          # a library may refuse an output buffer it cannot use; it may not return wrong numbers
+    bad = not np.allclose(np.asarray(r), ref, rtol=1e-12, atol=1e-12 * np.abs(ref).max())
+    return (np.array(r, copy=True), f'dft2(f, out=<{how}>) differs from a fresh allocation by {np.abs(np.asarray(r) - ref).max():.3e}' if bad else None)
+
+
+def _refused_then(obj, query, how):
+    """query(); an edit of obj that the library refuses; query() again: same answer, and the refusal is a refusal"""
+    q0 = query()
+    attempts = {
+        'wave-nonpositive': lambda: setattr(obj, 'wave', np.linspace(0., 3., len(obj.wave))),
+        'wave-decreasing': lambda: setattr(obj, 'wave', np.asarray(obj.wave)[::-1].copy()),
+        'wave-duplicate': lambda: setattr(obj, 'wave', np.concatenate([[obj.wave[0]], np.asarray(obj.wave)[:-1]])),
+        'wave-length': lambda: setattr(obj, 'wave', np.asarray(obj.wave)[:-2].copy()),
+        'resample-decreasing': lambda: obj.resample(np.array([600., 500., 700.])),
+        'pad-negative': lambda: obj.pad((-5, 800)),
+        'to-second-unit': lambda: obj.to('um', 'photlam'),
+        'to-bogus': lambda: obj.to('um', 'bogus'),
+        'to-two-wave-units': lambda: obj.to('bogus'),
+        'none': lambda: None,
+    }
+    raised = None
+    try:
+        attempts[how]()
+    except Exception as e:
+        raised = type(e).__name__
+    q1 = query()
+    from .histories import dig_arg
+    same = dig_arg(q0) == dig_arg(q1)
+    msg = None
+    if raised and not same:
+        msg = f'after the refused edit {how!r} ({raised}) the same query answers differently'
+    return q1, raised, msg
